@@ -116,7 +116,7 @@ func OpenDir(baseDir string) (*Bundle, error) {
 			ret.registryPackageVersionDeprecations[pkgAddr] = deprecations
 		}
 		for versionStr, mv := range rpm.Versions {
-			version, err := versions.ParseVersion(versionStr)
+			version, err := parseManifestVersion(versionStr)
 			if err != nil {
 				return nil, fmt.Errorf("invalid registry package version %q: %w", versionStr, err)
 			}
@@ -130,6 +130,18 @@ func OpenDir(baseDir string) (*Bundle, error) {
 	}
 
 	return ret, nil
+}
+
+// parseManifestVersion is [versions.ParseVersion] except that a version number
+// too large to represent, which that function reports by panicking, is
+// returned as an error like any other invalid version.
+func parseManifestVersion(s string) (v versions.Version, err error) {
+	defer func() {
+		if r := recover(); r != nil {
+			v, err = versions.Unspecified, fmt.Errorf("invalid version number: %v", r)
+		}
+	}()
+	return versions.ParseVersion(s)
 }
 
 // LocalPathForSource takes either a remote or registry final source address
